@@ -173,7 +173,11 @@ impl<S: Scheduler> Scheduler for Recorder<S> {
 #[derive(Debug, Clone)]
 pub struct Level {
     offered: Vec<usize>,
+    /// the subset of `offered` the walker will try (all of it unless the preemption budget is used up)
+    allowed: Vec<usize>,
     idx: usize,
+    /// preemptions used on the path before this decision
+    pre: u32,
 }
 
 #[derive(Debug, Default)]
@@ -187,8 +191,11 @@ pub struct WState {
     pub capped: bool,
     pub nondet: Option<String>,
     nrand: u64,
+    path_pre: u32,
     /// when set, follow exactly this choice prefix and then always pick the first offered task
     pub seed: u64,
+    /// preemption bound (CHESS-style): switching away from a current task that is still offered costs one
+    pub pbound: Option<u32>,
 }
 
 /// Independent exhaustive enumerator of the runtime's schedule tree (shares no code with
@@ -229,7 +236,7 @@ impl Scheduler for Walker {
                         break;
                     }
                     Some(l) => {
-                        if l.idx + 1 >= l.offered.len() {
+                        if l.idx + 1 >= l.allowed.len() {
                             st.stack.pop();
                         } else {
                             l.idx += 1;
@@ -251,13 +258,29 @@ impl Scheduler for Walker {
         st.execs += 1;
         st.depth = 0;
         st.nrand = 0;
+        st.path_pre = 0;
         Some(Schedule::new(st.seed))
     }
 
-    fn next_task(&mut self, runnable: &[&Task], _current: Option<TaskId>, _is_yielding: bool) -> Option<TaskId> {
+    fn next_task(&mut self, runnable: &[&Task], current: Option<TaskId>, _is_yielding: bool) -> Option<TaskId> {
         let mut st = self.st.lock().unwrap();
         let offered: Vec<usize> = runnable.iter().map(|t| usize::from(t.id())).collect();
         let d = st.depth;
+        let cur = current.map(usize::from);
+        // preemptions used so far on this path
+        let pre = if d == 0 { 0 } else { st.path_pre };
+        let cur_offered = cur.map(|c| runnable.iter().any(|t| usize::from(t.id()) == c && t.runnable())).unwrap_or(false);
+        let allowed: Vec<usize> = match st.pbound {
+            Some(b) if pre >= b && cur_offered => vec![cur.unwrap()],
+            // the current task first: schedules without preemption are explored first
+            _ if cur_offered => {
+                let c = cur.unwrap();
+                let mut v = vec![c];
+                v.extend(offered.iter().copied().filter(|&x| x != c));
+                v
+            }
+            _ => offered.clone(),
+        };
         let choice = if d < st.stack.len() {
             if st.stack[d].offered != offered {
                 if st.nondet.is_none() {
@@ -268,16 +291,21 @@ impl Scheduler for Walker {
                 }
                 // re-plant the level so that enumeration can go on
                 st.stack.truncate(d);
-                st.stack.push(Level { offered: offered.clone(), idx: 0 });
-                offered[0]
+                st.stack.push(Level { offered: offered.clone(), allowed: allowed.clone(), idx: 0, pre });
+                allowed[0]
             } else {
                 let l = &st.stack[d];
-                l.offered[l.idx]
+                l.allowed[l.idx]
             }
         } else {
-            st.stack.push(Level { offered: offered.clone(), idx: 0 });
-            offered[0]
+            st.stack.push(Level { offered: offered.clone(), allowed: allowed.clone(), idx: 0, pre });
+            allowed[0]
         };
+        if cur_offered && Some(choice) != cur {
+            st.path_pre = pre + 1;
+        } else {
+            st.path_pre = pre;
+        }
         st.depth += 1;
         Some(TaskId::from(choice))
     }
